@@ -80,7 +80,10 @@ class Topology:
                  {"name": "uphttp6", "type": "http", "server": "::1", "port": self.p2_http6}]
         rules = list(extra_rules_first or [])
         for up, (typ, port) in self.fake.items():
-            conns.append({"name": up, "type": typ, "server": "127.0.0.1", "port": port})
+            c = {"name": up, "type": "socks" if typ == "socks4" else typ, "server": "127.0.0.1", "port": port}
+            if typ == "socks4":
+                c["version"] = 4
+            conns.append(c)
             rules.append({"filter": 'request.listener =~ "_%s$"' % up, "target": up})
         if special:
             conns.append({"name": "lb", "type": "loadbalance", "connectors": ["direct"]})
